@@ -64,6 +64,10 @@ func genC04(t *rapid.T) *Case {
 			c.RPCs[i].NoCancelCtx = true // context.Background(): only the end of the tunnel can end this call
 		}
 	}
+	if c.Cfg.Dir == "fwd" && len(c.Events) == 1 && (kind == "cancel_open" || kind == "expire_open") && rapid.Bool().Draw(t, "close_on_the_way_out") {
+		// what an application does once it sees Done() closed (the opening context ended): it calls Close() on its way out
+		c.Events = append(c.Events, Event{Kind: "close_channel", Target: 0, AfterEv: 1, After: rapid.IntRange(0, 6).Draw(t, "close_after")})
+	}
 	return c
 }
 
@@ -81,6 +85,9 @@ func expandC04(c *Case, tr *Trace) []*Case {
 			v := *c
 			v.Prop = "c04_sweep"
 			v.Events = []Event{{Kind: kind, Target: 0, After: k}}
+			if c.Cfg.Dir == "fwd" && (kind == "cancel_open" || kind == "expire_open") && k%2 == 1 {
+				v.Events = append(v.Events, Event{Kind: "close_channel", Target: 0, AfterEv: 1, After: k % 5})
+			}
 			out = append(out, &v)
 		}
 	}
@@ -194,6 +201,32 @@ func monC04(c *Case, tr *Trace) []Violation {
 			}
 			if t.ServeReturned >= endStep {
 				add("serve_never_returned", endStep, "tunnel %d (%s): the serving call had not returned when the drained run reached its end (step %d), long after %s", t.Idx, t.Kind, endStep, ev.Kind)
+			}
+		}
+	}
+	// ... and not merely because a consumer that had stopped reading finally moved: when the end where the calls are made
+	// learns of the tunnel's end through the carrier (reverse tunnel: the handler returns and closes its channel; forward
+	// tunnel: the application calls Close() once it sees Done()), every call in flight is over at the drained point that
+	// precedes the release of the stalled consumers - with or without flow control.
+	if rel, ok := tr.PhaseStart["drain2"]; ok && er.Fired >= 0 && !parkArmed(c) && len(c.Cfg.Tunnels) <= 1 &&
+		!(ev.Kind == "expire_open" && tr.Labels["advance_skipped"] > 0) {
+		ref := -1
+		switch {
+		case c.Cfg.Dir == "rev" && (ev.Kind == "cancel_open" || ev.Kind == "expire_open" || ev.Kind == "break_both" || ev.Kind == "break_server"):
+			ref = er.Fired
+		case c.Cfg.Dir == "fwd" && len(c.Events) > 1 && c.Events[1].Kind == "close_channel" && c.Events[1].AfterEv == 1 && len(tr.Events) > 1:
+			if e2 := tr.Events[1]; e2.Fired >= 0 && e2.Returned >= 0 && !e2.PendingAtEnd {
+				ref = e2.Returned
+			}
+		}
+		if ref >= 0 && ref <= rel {
+			for _, o := range tr.Ops {
+				if o.Side != "caller" || o.Start > ref || o.CapBlocked {
+					continue
+				}
+				if o.Pending() || o.End > rel { // (steps after the release are numbered from rel+1)
+					add("in_flight_call_outlived_tunnel", o.Start, "%s %s#%d (rpc %d), in flight when the tunnel ended, was still blocked at the drained point before the consumers that had stopped reading were released (step %d)", o.Actor, o.Kind, o.Idx, o.RPC, rel)
+				}
 			}
 		}
 	}
